@@ -18,7 +18,7 @@ import (
 // IndepCase: a run of string/binary decodes from one reused input buffer.
 type IndepCase struct {
 	Lens []int `json:"lens"` // value lengths, decoded one after another
-	Mode []int `json:"mode"` // per value: 0 Binary.ReadString, 1 Binary.ReadBinary, 2 BufferReader.ReadBinary, 3 BufferReader.ReadString (bytes reader), 4/5 same over a stream reader
+	Mode []int `json:"mode"` // per value: 0 Binary.ReadString, 1 Binary.ReadBinary, 2 BufferReader.ReadBinary, 3 BufferReader.ReadString (bytes reader), 4/5 same over a stream reader, 6 method name from BufferReader.ReadMessageBegin
 }
 
 type keptVal struct {
@@ -68,6 +68,21 @@ func runIndep(c *IndepCase) (out [][]byte, v *evid.Violation) {
 			}
 			r.Recycle()
 			rd.Release(nil)
+		case 6: // method name of a message header read by the stream reader, with more data buffered behind it
+			msg := append([]byte{0x80, 0x01, 0, 1}, in...)
+			msg = append(msg, 0, 0, 0, 9, 0xAA, 0xBB, 0xCC, 0xDD, 0xAA, 0xBB, 0xCC, 0xDD)
+			rd := bufiox.NewDefaultReader(faultio.NewScriptReader(msg, faultio.Plan{Chunks: []int{0}, ErrAt: -1}))
+			r := thrift.NewBufferReader(rd)
+			k.s, _, _, err = r.ReadMessageBegin()
+			rd.Release(nil) // unread bytes are moved to the front of the buffer
+			if err == nil {
+				_, err = rd.Next(8)
+			}
+			r.Recycle()
+			rd.Release(nil)
+			for j := range msg {
+				msg[j] = 0xEE
+			}
 		default:
 			rd := bufiox.NewDefaultReader(faultio.NewScriptReader(in, faultio.Plan{Chunks: []int{4096, 100}, ErrAt: -1}))
 			r := thrift.NewBufferReader(rd)
@@ -118,6 +133,11 @@ func runIndep(c *IndepCase) (out [][]byte, v *evid.Violation) {
 	}
 	if v := verify("after appending to every returned byte slice"); v != nil {
 		return nil, v
+	}
+	for j, x := range in[:cap(in)] {
+		if x != 0xEE {
+			return nil, evid.Failf("appending to a returned byte slice wrote into the input buffer (offset %d became %#x)", j, x)
+		}
 	}
 	// (c) overwrite returned byte slices one at a time: siblings must not change
 	for i := range kept {
@@ -226,7 +246,7 @@ func genIndepCase(t *rapid.T) IndepCase {
 			c.Lens = append(c.Lens, rapid.OneOf(rapid.SampledFrom(indepLens), rapid.IntRange(0, 3000)).Draw(t, "len"))
 		}
 	}
-	c.Mode = rapid.SliceOfN(rapid.IntRange(0, 5), 1, 7).Draw(t, "modes")
+	c.Mode = rapid.SliceOfN(rapid.IntRange(0, 6), 1, 7).Draw(t, "modes")
 	return c
 }
 
